@@ -405,6 +405,13 @@ def obligations(tier):
     out.append(Obl("collections_ctor", collections_ctor(), dict(i=int), lambda i: 0 <= i and i < N_COLL, budget=120, cost=5,
                    desc="empty/duplicate children, two primary flags, empty/overlapping variants, half-specified bounds, invalid queries, absent UTR/CDS/sequence: "
                         "value or documented refusal", bounds="%d cases" % N_COLL, examples=[dict(i=0)]))
+    from harness.c03 import append_fn
+
+    for s1 in (PLUS, MINUS):
+        out.append(Obl("sequence_append_%s" % sname(s1), append_fn(Alphabet.NT_STRICT, "ACGTac", s1, s1), dict(s0=int, e0=int, s1=int, e1=int),
+                       lambda s0, e0, s1, e1: 0 <= s0 and s0 < e0 and e0 <= 6 and 0 <= s1 and s1 < e1 and e1 <= 6, budget=300, cost=20,
+                       desc="Sequence.append of two located pieces: out-of-order or overlapping pieces are refused, never an ill-formed Sequence",
+                       bounds="every pair of single-block pieces on a 6-letter parent (realised)", examples=[dict(s0=0, e0=2, s1=3, e1=5)]))
     out.append(Obl("deep_location", deep_location(), dict(n=int), lambda n: n == 2 or n == 400 or n == 1200 or n == 5000, budget=120, cost=10,
                    desc="locations with 2 / 400 / 1200 / 5000 blocks answer positional queries without RecursionError", bounds="4 sizes (concrete)",
                    examples=[dict(n=400)]))
